@@ -21,6 +21,9 @@ PROP_AUDIT = {
     # 'created'), but the digit count of the output is not judged (DESIGN section 8: the library's handling
     # of this one slot is deliberately irregular and I cannot settle the intended rule offline).
     ("2.0", "types", "marking-definition", "created"): {"precision": "millisecond", "constraint": "exact", "digits_unjudged": True},
+    # object_modified "MUST be an exact match for the modified time of the STIX Object being referenced", and a 2.1 modified
+    # may carry more than three fractional digits: at-least-millisecond, like modified itself
+    ("2.1", "types", "language-content", "object_modified"): {"precision": "millisecond", "constraint": "min"},
     # tlp value is a closed vocabulary
     ("2.0", "markings", "tlp", "tlp"): {"k": "enum", "values": ["white", "green", "amber", "red"]},
     ("2.1", "markings", "tlp", "tlp"): {"k": "enum", "values": ["white", "green", "amber", "red"]},
